@@ -248,7 +248,11 @@ func (sfs *worktreeFilesystem) validPath(paths ...string) error {
 			// component (traversal into a .git directory, e.g. "a/.git/config").
 			// A final non-first .git component (e.g. "submodule/.git") is
 			// allowed because submodule worktrees contain a .git pointer file.
-			if isDotGitVariant(part, sfs.protectHFS) && (i == 0 || i < len(parts)-1) {
+			// "Final" is decided with the host's separators: where backslash
+			// is an ordinary file name character, "a/.git/\\" names a file
+			// inside a/.git even though it yields no further component here.
+			final := i == len(parts)-1 && strings.HasSuffix(strings.TrimRight(p, "/"+string(filepath.Separator)), part)
+			if isDotGitVariant(part, sfs.protectHFS) && (i == 0 || !final) {
 				return fmt.Errorf("invalid path component: %q", p)
 			}
 
